@@ -12,10 +12,14 @@ open Std
 
 /-! ### Specification vocabulary -/
 
+/-- Direct count: number of pixels of `P` whose ancestor `d` levels up is `q`. -/
 def cnt (P : List Nat) (d q : Nat) : Nat := P.countP (fun p => p >>> (2 * d) == q)
 
+/-- Cell `q`, `d` levels above the pixel order, is fully valid: all its descendants are in `P`. -/
 def Full (P : List Nat) (d q : Nat) : Prop := ∀ x, x >>> (2 * d) = q → x ∈ P
 
+/-- The count as `degrade(sum)` computes it, level by level: 1 for valid pixels, then the sum of
+    the four children. -/
 def levelCount (P : List Nat) : Nat → Nat → Nat
   | 0, q => if q ∈ P then 1 else 0
   | d + 1, q => levelCount P d (4 * q) + levelCount P d (4 * q + 1) +
@@ -563,60 +567,87 @@ theorem foldl_max_le (l : List Nat) (a b : Nat) (ha : a ≤ b) (h : ∀ x ∈ l,
     rw [List.foldl_cons]
     exact ih _ (by have := h y (by simp); omega) fun x hx => h x (by simp [hx])
 
-/-- `max_order` of the file. -/
-theorem mocRead_fst (U : List Nat) : (mocRead U).1 = (U.map uniqOrder).foldl max 0 := by
-  simp [mocRead, List.map_map, Function.comp_def]
+/-- `max_order` of the file (however the powers are evaluated). -/
+theorem mocReadWith_fst (base pw : Nat → Nat) (U : List Nat) :
+    (mocReadWith base pw U).1 = (U.map uniqOrder).foldl max 0 := by
+  simp [mocReadWith, List.map_map, Function.comp_def]
 
-theorem uniqOrder_le_mocRead_fst {U : List Nat} {u : Nat} (hu : u ∈ U) :
-    uniqOrder u ≤ (mocRead U).1 := by
-  rw [mocRead_fst]
+theorem uniqOrder_le_mocReadWith_fst (base pw : Nat → Nat) {U : List Nat} {u : Nat} (hu : u ∈ U) :
+    uniqOrder u ≤ (mocReadWith base pw U).1 := by
+  rw [mocReadWith_fst]
   exact (foldl_max_ge _ 0).2 _ (List.mem_map_of_mem hu)
 
-theorem mocRead_fst_le {U : List Nat} {b : Nat} (h : ∀ u ∈ U, uniqOrder u ≤ b) :
-    (mocRead U).1 ≤ b := by
-  rw [mocRead_fst]
+theorem mocReadWith_fst_le (base pw : Nat → Nat) {U : List Nat} {b : Nat}
+    (h : ∀ u ∈ U, uniqOrder u ≤ b) : (mocReadWith base pw U).1 ≤ b := by
+  rw [mocReadWith_fst]
   apply foldl_max_le _ _ _ (Nat.zero_le _)
   intro x hx
   obtain ⟨u, hu, rfl⟩ := List.mem_map.1 hx
   exact h u hu
 
-theorem mocRead_snd (U : List Nat) :
-    (mocRead U).2 = npUnique ((U.map fun u => (uniqOrder u, uniqIndexI32 u)).flatMap fun c =>
-      (List.range (wrap32 (4 ^ ((mocRead U).1 - c.1)))).map fun j =>
-        (c.2 <<< (2 * ((mocRead U).1 - c.1))) + j) := rfl
+theorem mocReadWith_snd (base pw : Nat → Nat) (U : List Nat) :
+    (mocReadWith base pw U).2 =
+      npUnique ((U.map fun u => (uniqOrder u, u - base (uniqOrder u))).flatMap fun c =>
+        (List.range (pw ((mocReadWith base pw U).1 - c.1))).map fun j =>
+          (c.2 <<< (2 * ((mocReadWith base pw U).1 - c.1))) + j) := rfl
 
-/-- Membership in the pixel list produced by the reader, as the code computes it (32-bit
-    wrap included). -/
-theorem mem_mocRead_snd_raw (U : List Nat) (y : Nat) :
-    y ∈ (mocRead U).2 ↔ ∃ u ∈ U, ∃ j, j < wrap32 (4 ^ ((mocRead U).1 - uniqOrder u)) ∧
-      y = (uniqIndexI32 u <<< (2 * ((mocRead U).1 - uniqOrder u))) + j := by
-  rw [mocRead_snd, mem_npUnique]
+/-- Membership in the pixel list produced by the reader, as the code computes it. -/
+theorem mem_mocReadWith_snd_raw (base pw : Nat → Nat) (U : List Nat) (y : Nat) :
+    y ∈ (mocReadWith base pw U).2 ↔
+      ∃ u ∈ U, ∃ j, j < pw ((mocReadWith base pw U).1 - uniqOrder u) ∧
+        y = ((u - base (uniqOrder u)) <<< (2 * ((mocReadWith base pw U).1 - uniqOrder u))) + j := by
+  rw [mocReadWith_snd, mem_npUnique]
   simp only [List.mem_flatMap, List.mem_map, List.mem_range]
   constructor
   · rintro ⟨c, ⟨u, hu, rfl⟩, j, hj, rfl⟩; exact ⟨u, hu, j, hj, rfl⟩
   · rintro ⟨u, hu, j, hj, rfl⟩; exact ⟨_, ⟨u, hu, rfl⟩, j, hj, rfl⟩
 
-/-- The valid pixels of the map read from a file whose maximum order is at most 14: `y` is
-    valid iff it lies in one of the cells (cells understood as the MOC standard defines). -/
-theorem mem_mocRead_snd {U : List Nat} (h14 : (mocRead U).1 ≤ 14) (y : Nat) :
+theorem uniqOrder_le_mocRead_fst {U : List Nat} {u : Nat} (hu : u ∈ U) :
+    uniqOrder u ≤ (mocRead U).1 :=
+  uniqOrder_le_mocReadWith_fst _ _ hu
+
+theorem mocRead_fst_le {U : List Nat} {b : Nat} (h : ∀ u ∈ U, uniqOrder u ≤ b) :
+    (mocRead U).1 ≤ b :=
+  mocReadWith_fst_le _ _ h
+
+/-- The valid pixels of the map read from a file: `y` is valid iff it lies in one of the cells
+    (expanded to the file's maximum order). -/
+theorem mem_mocRead_snd (U : List Nat) (y : Nat) :
     y ∈ (mocRead U).2 ↔
       ∃ u ∈ U, y >>> (2 * ((mocRead U).1 - uniqOrder u)) = uniqIndex u := by
-  rw [mem_mocRead_snd_raw]
+  unfold mocRead
+  rw [mem_mocReadWith_snd_raw]
   constructor
   · rintro ⟨u, hu, j, hj, rfl⟩
     refine ⟨u, hu, ?_⟩
-    have ho := uniqOrder_le_mocRead_fst hu
+    rw [shr_eq_iff]
+    exact ⟨j, by rw [← four_pow]; exact hj, rfl⟩
+  · rintro ⟨u, hu, h⟩
+    rw [shr_eq_iff] at h
+    obtain ⟨j, hj, h⟩ := h
+    exact ⟨u, hu, j, by rw [four_pow]; exact hj, h⟩
+
+/-- The pre-fix (`int32`) reader agrees with the repaired one on files of maximum order ≤ 14. -/
+theorem mem_mocReadI32_snd {U : List Nat} (h14 : (mocReadI32 U).1 ≤ 14) (y : Nat) :
+    y ∈ (mocReadI32 U).2 ↔
+      ∃ u ∈ U, y >>> (2 * ((mocReadI32 U).1 - uniqOrder u)) = uniqIndex u := by
+  unfold mocReadI32 at h14 ⊢
+  rw [mem_mocReadWith_snd_raw]
+  constructor
+  · rintro ⟨u, hu, j, hj, rfl⟩
+    refine ⟨u, hu, ?_⟩
+    have ho := uniqOrder_le_mocReadWith_fst uniqBaseI32 (fun k => wrap32 (4 ^ k)) hu
     rw [wrap32_four_pow (by omega)] at hj
     rw [shr_eq_iff]
     refine ⟨j, by rw [← four_pow]; exact hj, ?_⟩
-    rw [uniqIndexI32, uniqBaseI32_eq (by omega), uniqIndex]
+    rw [uniqBaseI32_eq (by omega), uniqIndex]
   · rintro ⟨u, hu, h⟩
-    have ho := uniqOrder_le_mocRead_fst hu
+    have ho := uniqOrder_le_mocReadWith_fst uniqBaseI32 (fun k => wrap32 (4 ^ k)) hu
     rw [shr_eq_iff] at h
     obtain ⟨j, hj, rfl⟩ := h
     refine ⟨u, hu, j, ?_, ?_⟩
     · rw [wrap32_four_pow (by omega), four_pow]; exact hj
-    · rw [uniqIndexI32, uniqBaseI32_eq (by omega), uniqIndex]
+    · rw [uniqBaseI32_eq (by omega), uniqIndex]
 
 /-! ### Sloppy comparators -/
 
@@ -787,38 +818,64 @@ theorem moc_break_sound' (hnd : P.Nodup) {d : Nat}
   intro q hq
   simpa [isFull, exactEq] using h q hq
 
-theorem moc_read_write' (hnd : P.Nodup) (hlt : ∀ p ∈ P, p < 12 * 4 ^ n)
-    (h14 : (mocRead (mocWrite n m P)).1 ≤ 14) :
-    (mocRead (mocWrite n m P)).1 ≤ n ∧
-    ∀ x, x ∈ P ↔ x >>> (2 * (n - (mocRead (mocWrite n m P)).1)) ∈ (mocRead (mocWrite n m P)).2 := by
+/-- Write/read round trip for any reader whose valid pixels are the union of the cells. -/
+theorem read_write_of_mem {n m : Nat} {P : List Nat} (hnd : P.Nodup)
+    (hlt : ∀ p ∈ P, p < 12 * 4 ^ n) (base pw : Nat → Nat)
+    (hmem : ∀ y, y ∈ (mocReadWith base pw (mocWrite n m P)).2 ↔
+      ∃ u ∈ mocWrite n m P,
+        y >>> (2 * ((mocReadWith base pw (mocWrite n m P)).1 - uniqOrder u)) = uniqIndex u) :
+    (mocReadWith base pw (mocWrite n m P)).1 ≤ n ∧
+    ∀ x, x ∈ P ↔ x >>> (2 * (n - (mocReadWith base pw (mocWrite n m P)).1))
+                    ∈ (mocReadWith base pw (mocWrite n m P)).2 := by
   have hord : ∀ u ∈ mocWrite n m P, uniqOrder u ≤ n := by
     intro u hu
     obtain ⟨p, hp, e, he, rfl⟩ := (mem_mocWrite_iff n m hnd u).1 hu
     rw [uniqOrder_cellU (hlt p hp) (by have := he.1; omega)]; omega
-  have hM : (mocRead (mocWrite n m P)).1 ≤ n := mocRead_fst_le hord
+  have hM := mocReadWith_fst_le base pw hord
   refine ⟨hM, fun x => ?_⟩
-  rw [mem_mocRead_snd h14, ← moc_cover' (m := m) hnd hlt x]
+  rw [hmem, ← moc_cover' (m := m) hnd hlt x]
   constructor
   · rintro ⟨u, hu, hc⟩
     refine ⟨u, hu, ?_⟩
-    have := uniqOrder_le_mocRead_fst hu
+    have := uniqOrder_le_mocReadWith_fst base pw hu
     rw [cellCovers_iff] at hc
     rw [shr_shr, ← hc]; congr 1; omega
   · rintro ⟨u, hu, hc⟩
     refine ⟨u, hu, ?_⟩
-    have := uniqOrder_le_mocRead_fst hu
+    have := uniqOrder_le_mocReadWith_fst base pw hu
     rw [cellCovers_iff, ← hc, shr_shr]; congr 1; omega
+
+theorem moc_read_write' {n m : Nat} {P : List Nat} (hnd : P.Nodup)
+    (hlt : ∀ p ∈ P, p < 12 * 4 ^ n) :
+    (mocRead (mocWrite n m P)).1 ≤ n ∧
+    ∀ x, x ∈ P ↔ x >>> (2 * (n - (mocRead (mocWrite n m P)).1)) ∈ (mocRead (mocWrite n m P)).2 :=
+  read_write_of_mem hnd hlt _ _ (mem_mocRead_snd _)
+
+/-- The pre-fix reader round-trips as long as the file's maximum order is ≤ 14. -/
+theorem moc_read_write_i32' {n m : Nat} {P : List Nat} (hnd : P.Nodup)
+    (hlt : ∀ p ∈ P, p < 12 * 4 ^ n) (h14 : (mocReadI32 (mocWrite n m P)).1 ≤ 14) :
+    (mocReadI32 (mocWrite n m P)).1 ≤ n ∧
+    ∀ x, x ∈ P ↔ x >>> (2 * (n - (mocReadI32 (mocWrite n m P)).1))
+                    ∈ (mocReadI32 (mocWrite n m P)).2 :=
+  read_write_of_mem hnd hlt _ _ (mem_mocReadI32_snd h14)
 
 end
 
-/-- The 32-bit overflow in the reader: a one-pixel map at order 15 reads back with the UNIQ
-    code itself as the pixel number. -/
-theorem mocRead_order15 : mocRead (mocWrite 15 15 [5]) = (15, [4294967301]) := by
-  have h1 : mocWrite 15 15 [5] = [4294967301] := by
-    simp [mocWrite, mocWriteWith, mocLoop, npUnique, dedupLoop]
-  rw [h1]
+theorem mocWrite_order15 : mocWrite 15 15 [5] = [4294967301] := by
+  simp [mocWrite, mocWriteWith, mocLoop, npUnique, dedupLoop]
+
+/-- The 32-bit overflow in the PRE-FIX reader: a one-pixel map at order 15 read back with the
+    UNIQ code itself as the pixel number. -/
+theorem mocReadI32_order15 : mocReadI32 (mocWrite 15 15 [5]) = (15, [4294967301]) := by
+  rw [mocWrite_order15]
   have ho : uniqOrder 4294967301 = 15 := by decide
   have hb : uniqBaseI32 15 = 0 := uniqBaseI32_big (by omega)
-  simp [mocRead, ho, uniqIndexI32, hb, wrap32, npUnique, dedupLoop]
+  simp [mocReadI32, mocReadWith, ho, hb, wrap32, npUnique, dedupLoop]
+
+/-- The repaired reader on the same file. -/
+theorem mocRead_order15 : mocRead (mocWrite 15 15 [5]) = (15, [5]) := by
+  rw [mocWrite_order15]
+  have ho : uniqOrder 4294967301 = 15 := by decide
+  simp [mocRead, mocReadWith, ho, npUnique, dedupLoop]
 
 end HS
